@@ -250,3 +250,38 @@ def bare_length_uses(outs, slots, lt):
             if not ok: bad.append(p_)
     return n, bad
 
+
+# ---------------------------------------------------------------- precision narrowing (effect rule on the raw IR)
+
+def narrowing(rep, ws, tus, rule, allow=None, floor=5):
+    """`rule`: no double-only instantiation reached from the (T = double) wrapper TUs rounds an intermediate to single
+    precision (engine/narrow.py).  allow: {substring of the demangled function: reason} for documented exceptions."""
+    from concurrent.futures import ThreadPoolExecutor
+    from engine import narrow
+    allow = allow or {}
+    ws.configure()
+    def one(tu):
+        return tu.name, narrow.scan(ws, 'narrow_' + tu.name, tu.source())
+    with ThreadPoolExecutor(max_workers=build.JOBS) as ex:
+        res = dict(ex.map(one, tus))
+    fns = set(); sites = {}
+    for name, r in res.items():
+        fns.update(r['functions'])
+        for s in r['sites']:
+            sites.setdefault((s['dem'], s['what'], s.get('file'), s.get('line')), s)
+    def short(d):
+        d = d.replace('Imath_3_2::', '').replace('Imath::', '')
+        return d.split('(')[0].split(' ')[-1] if '(' in d else d
+    rep.floor('double instantiations scanned for narrowing (%s)' % rule, len(fns), floor)
+    nviol = 0; allowed = []
+    for (dem, what, fil, line), s in sorted(sites.items(), key=lambda kv: (kv[0][0], str(kv[0][2]), str(kv[0][3]), kv[0][1])):
+        why = next((r for k, r in allow.items() if k in dem), None)
+        if why:
+            allowed.append('%s (%s)' % (short(dem), why)); continue
+        nviol += 1
+        rep.ob('%s#narrow[%s]' % (short(dem), what.split(' ')[-1] if s['kind'] == 'call' else 'fptrunc'), rule, VIOLATED,
+               '%s, instantiated for double only, rounds an intermediate to single precision: %s; about half the digits of the double result are lost' % (dem[:160], what),
+               '%s:%s (%s)' % (fil, line, short(dem)))
+    if not nviol:
+        rep.ob('narrow<double>', rule, HOLDS, '%d double-only instantiations reached from the wrappers; no fptrunc to float, no single-precision libm call, no float-returning callee%s'
+               % (len(fns), ('; documented exceptions: ' + ', '.join(sorted(set(allowed)))) if allowed else ''))
